@@ -52,6 +52,15 @@ func main() {
 	dumpAnchors := flag.String("dump-anchors", "", "run every property and write the fingerprints of all functions looked up by name to this file (maintenance: regenerates anchors.json)")
 	dumpOpt := flag.String("dump-optderef", "", "maintenance: list optional-element dereferences in these comma-separated packages")
 	flag.Parse()
+	if *dumpOpt == "explore" {
+		p, err := core.Load(*repo, nil)
+		if err != nil {
+			fmt.Fprintln(os.Stderr, err)
+			os.Exit(2)
+		}
+		props.DumpExplore(p)
+		return
+	}
 	if *dumpOpt != "" {
 		p, err := core.Load(*repo, nil)
 		if err != nil {
